@@ -167,6 +167,24 @@ Fixpoint inv_go (m : meta) (is_pos : bool) : option bool :=
 Definition invariant_ok (m : meta) : bool :=
   match inv_go m false with Some _ => true | None => false end.
 
+(* Meta::adjacent_invariant_check (fix: commit; called by check_invariants only, not when help is rendered): an adjacent
+   group must start with an item -- ParseAdjacent::eval looks for it and panics without one *)
+Fixpoint adj_first_ok (m : meta) : bool :=
+  let all := fix all (xs : list meta) : bool :=
+    match xs with [] => true | x :: t => adj_first_ok x && all t end in
+  match m with
+  | MAnd xs | MOr xs => all xs
+  | MItem (ICommand _ _ _ m' _) => adj_first_ok m'
+  | MItem _ => true
+  | MAdjacent m' => (match first_item m' with Some _ => true | None => false end) && adj_first_ok m'
+  | MOptional m' | MRequired m' | MMany m' | MCustomUsage m' _ | MSubsection m' _
+  | MStrict m' | MSuffix m' _ => adj_first_ok m'
+  | MSkip => true
+  end.
+
+(* OptionParser::check_invariants returns (does not panic) *)
+Definition check_invariants_ok (m : meta) : bool := invariant_ok m && adj_first_ok m.
+
 (* Info::meta *)
 Definition info_meta (i : info) : meta :=
   let help := meta_of (PFlag (i_help_arg i) VUnit None) in
